@@ -307,7 +307,7 @@ Qed.
 Lemma CNT_eventfd : forall k b, CNT k (fst (k_eventfd k b)).
 Proof.
   intros k b. unfold k_eventfd.
-  destruct (emfile (flt k)); [apply CNTx_refl|]. destruct (no_eventfd (flt k) || (b && no_eventfd2 (flt k))); [apply CNTx_refl|].
+  destruct (emfile (flt k)); [apply CNTx_refl|]. destruct (efd_cut k && (no_eventfd (flt k) || (b && no_eventfd2 (flt k)))); [apply CNTx_refl|].
   pose proof (CNT_alloc k K_EVENTFD ltac:(discriminate) ltac:(discriminate)) as A. destruct (k_alloc k K_EVENTFD) as [fd k1]. exact A.
 Qed.
 
